@@ -46,6 +46,7 @@ fn main() {
                 "C01" | "C02" | "C03" | "C10" | "C11" => e1::driver::run_check(&id, &tier),
                 "C12" => e1::faults::run_check(&tier),
                 "C19" => simcore::e5::run_check(&tier),
+                "C15" => simcore::e3::run_check(&tier),
                 "C16" | "C17" => simcore::e4::run_check(&id, &tier),
                 "C05" => simcore::e2::c05::run_check(&tier),
                 "C06" => simcore::e2::c06::run_check(&tier),
@@ -99,7 +100,7 @@ fn replay(file: &str) -> i32 {
                 Err(e) => harness_fail(&format!("{e:?}")),
             }
         }
-        "e2-c05" | "e2-c06" | "e2-c20" | "e2-c12" | "e5" | "e4" => {
+        "e2-c05" | "e2-c06" | "e2-c20" | "e2-c12" | "e5" | "e4" | "e3" => {
             let argv = vec!["worker".to_string(), engine.to_string(), "--replay".to_string(), file.to_string()];
             let out: Result<Vec<serde_json::Value>, _> = simcore::pool::run_workers(vec![argv], false);
             match out {
@@ -185,6 +186,7 @@ fn worker(args: &[String]) -> i32 {
         }
         Some("e1-fault") => e1::faults::worker(args),
         Some("e5") => simcore::e5::worker(args),
+        Some("e3") => simcore::e3::worker(args),
         Some("e4") => simcore::e4::worker(args),
         Some("e2-c05") => simcore::e2::c05::worker(args),
         Some("e2-c06") => simcore::e2::c06::worker(args),
